@@ -118,7 +118,11 @@ def _var_std_wrapper(group_idx, array, engine, *, axis=-1, **kwargs):
     # Attempt to increase numerical stability by subtracting the first element.
     # https://en.wikipedia.org/wiki/Algorithms_for_calculating_variance
     # Cast any unsigned types first
-    dtype = np.result_type(array, np.int8(-1) * array[0])
+    if array.dtype.kind in "iub":
+        # integers: subtract and square in floating point so that narrow widths do not wrap
+        dtype = np.result_type(array.dtype, np.float64)
+    else:
+        dtype = np.result_type(array, np.int8(-1) * array[0])
     array = array.astype(dtype, copy=False)
     first = _get_aggregate(engine).aggregate(group_idx, array, func="nanfirst", axis=axis)
     array = array - first[..., group_idx]
